@@ -224,8 +224,7 @@ def r2_order(ctx, rep):
                 and ast.unparse(c.func.value).endswith(".files") for c in ast.walk(loop))
     ok = md and isdir and files
     rep.ob("markdown -> page, directory -> sub-tree, other -> copied file", ok, "", py.nloc(loop))
-    ok = any(isinstance(n, ast.If) and any(isinstance(c, ast.Compare) and isinstance(c.ops[0], ast.In)
-                                           and ast.unparse(c.comparators[0]).endswith(".copy_subdir") for c in ast.walk(n.test))
+    ok = any(isinstance(n, ast.If) and any(isinstance(a, ast.Attribute) and a.attr == "copy_subdir" for a in ast.walk(n.test))
              and n.body and isinstance(n.body[-1], ast.Continue) for n in ast.walk(loop))
     rep.ob("copy_subdir directories are not searched for pages", ok, "", py.nloc(loop), nontrivial=False)
 
@@ -393,6 +392,52 @@ def r5_copy_for_every_page(ctx, rep):
                            and "proj_copy_subdir" in ast.unparse(v) and
                            ast.unparse(v).index("meta.copy_subdir") < ast.unparse(v).index("proj_copy_subdir") for _, v in asg)
     rep.ob("page-level copy_subdir overrides the project setting", ok, "", "ford/pagetree.py")
+    # the project-wide copy_subdir names sub-directories of *each page directory*: it must reach the copy loop as a relative
+    # name.  The copy loop rejects absolute entries, so the option must not be made absolute with the other path options
+    rejects_abs = any(isinstance(c, ast.Call) and call_name(c).split(".")[-1] in ("isabs", "is_absolute") for c in ast.walk(cs[0]))
+    np_ = py.func("ProjectSettings.normalise_paths")
+    ftype = ""
+    for st in py.cls("ProjectSettings").node.body:
+        if isinstance(st, ast.AnnAssign) and isinstance(st.target, ast.Name) and st.target.id == "copy_subdir":
+            ftype = ast.unparse(st.annotation)
+    if not ftype:
+        raise AnalysisError("ProjectSettings.copy_subdir not found")
+    generic = any(isinstance(c, ast.Call) and call_name(c).split(".")[-1] == "is_same_type" and len(c.args) == 2
+                  and ast.unparse(c.args[1]) == ftype for c in ast.walk(np_))
+    exempt = any(isinstance(k, ast.Constant) and k.value == "copy_subdir" for k in ast.walk(np_))
+    ok = not (rejects_abs and generic and not exempt)
+    rep.ob("the project-wide copy_subdir stays a relative name", ok,
+           "not rooted at the project directory with the other path options" if ok else
+           f"copy_subdir is declared {ftype} and normalise_paths makes every {ftype} option absolute, while the copy loop skips "
+           f"absolute entries: `copy_subdir: media` in the project file is never copied for any page", py.nloc(np_), nontrivial=not ok)
+    # directories named by the index page of a directory are copied verbatim, not rendered: the recursion of get_page_tree
+    # skips them - by the copy_subdir of the node built from THIS directory's index file, compared as names
+    gpt = py.func("pagetree.get_page_tree")
+    node_var = next((t.id for st in ast.walk(gpt) if isinstance(st, ast.Assign) and isinstance(st.value, ast.Call)
+                     and call_name(st.value) == "PageNode" and any("index" in ast.unparse(a) for a in st.value.args)
+                     for t in st.targets if isinstance(t, ast.Name)), None)
+    if node_var is None:
+        raise AnalysisError("get_page_tree: the node of the directory's index page was not found")
+    skips = [c for c in ast.walk(gpt) if any(isinstance(a, ast.Attribute) and a.attr == "copy_subdir" for a in ast.walk(c))
+             and isinstance(c, (ast.Compare, ast.Call)) and not any(c is not p and c in list(ast.walk(p)) for p in ast.walk(gpt)
+                                                                    if isinstance(p, (ast.Compare, ast.Call)) and any(
+                                                                        isinstance(a, ast.Attribute) and a.attr == "copy_subdir" for a in ast.walk(p)))]
+    for c in skips:
+        owners = {ast.unparse(a.value) for a in ast.walk(c) if isinstance(a, ast.Attribute) and a.attr == "copy_subdir"}
+        own_ok = owners == {node_var}
+        # element type: a bare `name in <list of Path>` compares str with Path and is never true
+        is_in = isinstance(c, ast.Compare) and isinstance(c.ops[0], (ast.In, ast.NotIn))
+        typed_ok = not (is_in and isinstance(c.left, ast.Name) and "Path" in ftype)
+        ok = own_ok and typed_ok
+        rep.ob("copied sub-directories are not rendered as pages", ok,
+               f"skipped by the copy_subdir of `{node_var}`, compared as names" if ok else
+               (f"`{ast.unparse(c)[:60]}` consults {sorted(owners)} instead of `{node_var}` (the page of the directory being listed)"
+                if not own_ok else
+                f"`{ast.unparse(c)[:60]}` compares a file name (str) with {ftype} entries: never equal") +
+               ": a copy_subdir directory is also walked as a page directory (spurious 'index.md does not exist' warning, or rendered "
+               "and copied at once), and a same-named directory two levels down is silently dropped", py.nloc(c), nontrivial=not ok)
+    if not skips:
+        raise AnalysisError("get_page_tree: no test involving copy_subdir found")
 
 
 def r6_links_and_empty_pages(ctx, rep):
